@@ -535,12 +535,14 @@ func (txn *Txn) commit() {
 
 	// Commit chunk by chunk to reduce lock contentions
 	txn.rangeWrite(func(commitID uint64, chunk commit.Chunk, fill bitmap.Bitmap) {
+		// Apply the column updates first and the inserts and deletes of rows after them, so that
+		// a row that was written and then deleted in this transaction leaves nothing behind
+		updated := txn.commitUpdates(chunk)
 		if changedRows {
 			txn.commitMarkers(chunk, fill, markers)
 		}
 
-		// Attemp to update, if nothing was changed we're done
-		updated := txn.commitUpdates(chunk)
+		// If nothing was changed we're done
 		if !changedRows && !updated {
 			return
 		}
